@@ -1108,3 +1108,18 @@ Proof.
   - intros b n Hb Hn. rewrite forallb_forall in H3. specialize (H3 b Hb).
     rewrite forallb_forall in H3. specialize (H3 n Hn). destruct (find_sub (p_subs p) n); congruence.
 Qed.
+
+(* ------------------------------------------------------------------ FOR reads its end and step once *)
+
+(* a loop whose end and step are expressions (variables that the body or a subroutine it calls may change) is
+   the loop with the values these had at FOR written in as constants *)
+Lemma for_bounds_captured subs g f cur v a b s nm body rest d vb vs :
+  eval d b = EV vb -> exact24 vb = true -> eval d s = EV vs -> exact24 vs = true ->
+  exec subs (S g) (S f) cur (TFor v a b s nm body :: rest) d =
+  exec subs (S g) (S f) cur (TFor v a (EConst vb) (EConst vs) nm body :: rest) d.
+Proof.
+  intros Hb Hxb Hs Hxs. rewrite !exec_for. cbv zeta. unfold rint, rval.
+  destruct (eval d a) as [va| |]; try reflexivity.
+  destruct (in16 va); [|reflexivity].
+  cbn [eval]. rewrite Hb, Hs, Hxb, Hxs. reflexivity.
+Qed.
